@@ -128,7 +128,7 @@ E_Wait ==
           /\ ePc = "wait" /\ notified["E"] /\ notified' = [notified EXCEPT !["E"] = FALSE] /\ ePc' = "chkquit"
           /\ UNCHANGED <<q, ackSelf, ackKids, quitKids, search, quitFlag, pending, optsDone, mainJob, jobsDone, waitForStop, out>> /\ UNCHANGED EU
 E_ChkQuit ==
-          /\ ePc = "chkquit" /\ ePc' = (IF quitFlag THEN "quit1" ELSE "opts1")
+          /\ ePc = "chkquit" /\ ePc' = (IF quitFlag THEN "quit1" ELSE IF search THEN "begin" ELSE "opts1")   \* options queued after "go" wait
           /\ UNCHANGED <<notified, q, ackSelf, ackKids, quitKids, search, quitFlag, pending, optsDone, mainJob, jobsDone, waitForStop, out>> /\ UNCHANGED EU
 \* setOptions loop: swap; if empty -> finished
 E_Opts(from, to) ==
